@@ -62,6 +62,8 @@ class Body:
             if 'l' in v and not v['p']:
                 self.names[v['l']] = d['name']
         self.debug = j['debug']
+        # parameter slots of helpers spliced into this body: bound once, by an assignment of the argument
+        self.inl_params = set(j.get('inl_params', []))
 
     # ------------------------------------------------------------ CFG
     def succ(self, b):
@@ -559,6 +561,7 @@ def _splice_call(c, bi, h, hp, mark=True):
                 x['succ'] = [t['t']]
             if hfile != c['file']:
                 x['term']['file'] = hfile
+    c.setdefault('inl_params', []).extend(loff + 1 + i for i in range(len(t.get('args', []))))
     for i, a in enumerate(t.get('args', [])):
         blk['stmts'].append({'k': 'assign', 'lhs': {'l': loff + 1 + i, 'p': [], 'ty': None, 's': '_%d' % (loff + 1 + i)},
                              'rv': {'k': 'use', 'op': a}, 'line': t.get('line', 0), 'exp': False})
